@@ -59,6 +59,7 @@ StepOK(t, ln) ==
   /\ Check(Clamp(net, st, s2), ln, era)
   /\ StateClauses(net, s2, ln)
   /\ Check(WorkMono(net, st, s2), ln, "WorkMono")
+  /\ Check(WorkSum(net, st, s2), ln, "WorkSum")
   \* every candidate header: the verdict of ValidateHeader is the header rule
   /\ \A j \in DOMAIN t.cands :
        LET c == t.cands[j]  want == HeaderOK(net, st, Header(t, c)) IN
